@@ -187,12 +187,18 @@ func runRetry(sc *RetryScenario) *RetryResult {
 		return st.QueuedTasks == 0 && st.QueuedRetries == 0 && w.Healthy() && cur != nil && cur.Drained() && rec.Quiet() >= quiet
 	}
 	runaway := false
+	// scenarios without keep-alive pings or hammering callers record well under 100 events (measured); beyond the cap the
+	// client is reconnecting / retransmitting without end
+	maxEvents := 400
+	if sc.Opts.PingMs > 0 || sc.Opts.Hammer {
+		maxEvents = 3000
+	}
 	waitQuiet := func() bool {
 		for time.Now().Before(deadline) {
 			if isQuiet() {
 				return true
 			}
-			if rec.Len() > 3000 {
+			if rec.Len() > maxEvents {
 				// a client that keeps reconnecting / retransmitting without end: no point in recording more
 				runaway = true
 				return false
@@ -294,7 +300,7 @@ func runRetry(sc *RetryScenario) *RetryResult {
 			}
 			cseq := rec.Emit(netsim.Event{"e": "SubmitCall", "i": nreq})
 			err := cli.Publish(ctx, m)
-			rec.Emit(netsim.Event{"e": "Submit", "i": nreq, "k": "pub", "q": r.Q, "fs": []string{}, "qs": []int{}, "res": netsim.ErrClass(err), "cseq": cseq})
+			rec.Emit(netsim.Event{"e": "Submit", "i": nreq, "k": "pub", "q": r.Q, "retain": r.Retain, "fs": []string{}, "qs": []int{}, "res": netsim.ErrClass(err), "cseq": cseq})
 		case "sub":
 			nreq++
 			subs := make([]mqtt.Subscription, len(r.Subs))
